@@ -438,6 +438,12 @@ fn ranks(ctx: &mut Ctx) {
     rank_case!(ctx, "RankSmall<1,10>", 0.0625, 8, true, |bv| RankSmall::<1, 10, _, _, _>::new(bv));
     rank_case!(ctx, "RankSmall<1,11>", 0.03125, 8, true, |bv| RankSmall::<1, 11, _, _, _>::new(bv));
     rank_case!(ctx, "RankSmall<3,13>", 0.015625, 16, true, |bv| RankSmall::<3, 13, _, _, _>::new(bv));
+    // the same five variants as the documentation names them: through the rank_small! macro
+    rank_case!(ctx, "rank_small![0]", 0.1875, 12, true, |bv| sux::rank_small![0; bv]);
+    rank_case!(ctx, "rank_small![1]", 0.125, 8, true, |bv| sux::rank_small![1; bv]);
+    rank_case!(ctx, "rank_small![2]", 0.0625, 8, true, |bv| sux::rank_small![2; bv]);
+    rank_case!(ctx, "rank_small![3]", 0.03125, 8, true, |bv| sux::rank_small![3; bv]);
+    rank_case!(ctx, "rank_small![4]", 0.015625, 16, true, |bv| sux::rank_small![4; bv]);
     // Select9 over its Rank9
     for (lname, lens) in rank_lens(ctx) {
         for &(dname, d) in DENS {
